@@ -94,3 +94,319 @@ Qed.
 
 Theorem empty_field_casts_to_none t : cast_val t None = COk VNone /\ cast_val t (Some []) = COk VNone.
 Proof. split; reflexivity. Qed.
+
+(* ---- parsing the printed token stream of a condition returns the condition ---- *)
+Open Scope nat_scope.
+
+Section cond_ind2.
+Variable P : cond -> Prop.
+Hypothesis Hc : forall o col v, P (CCmp o col v).
+Hypothesis Ha : forall cs, Forall P cs -> P (CAnd cs).
+Hypothesis Ho : forall cs, Forall P cs -> P (COr cs).
+Hypothesis Hn : forall x, P x -> P (CNot x).
+Fixpoint cond_ind2 (c : cond) : P c :=
+  match c with
+  | CCmp o col v => Hc o col v
+  | CAnd cs => Ha cs ((fix go (l : list cond) : Forall P l :=
+                         match l with [] => Forall_nil P | x :: l' => Forall_cons x (cond_ind2 x) (go l') end) cs)
+  | COr cs => Ho cs ((fix go (l : list cond) : Forall P l :=
+                        match l with [] => Forall_nil P | x :: l' => Forall_cons x (cond_ind2 x) (go l') end) cs)
+  | CNot x => Hn x (cond_ind2 x)
+  end.
+End cond_ind2.
+
+(* the trees the parser can produce: and/or have at least two children, integer
+   operands are not used with ~ / !~ and strings not with ordering operators *)
+Definition lit_ok (o : cmpop) (v : lit) : bool :=
+  match v with LInt _ => negb (regex_op o) | LStr _ => negb (order_op o) end.
+
+Fixpoint cwf (c : cond) : Prop :=
+  match c with
+  | CCmp o _ v => lit_ok o v = true
+  | CAnd cs | COr cs =>
+      2 <= length cs /\
+      (fix all (l : list cond) : Prop := match l with [] => True | x :: l' => cwf x /\ all l' end) cs
+  | CNot x => cwf x
+  end.
+
+Lemma cwf_list cs :
+  (fix all (l : list cond) : Prop := match l with [] => True | x :: l' => cwf x /\ all l' end) cs
+  <-> Forall cwf cs.
+Proof.
+  induction cs as [|x l IH]; simpl; [split; [constructor | trivial]|].
+  rewrite IH. split; [intros [A B]; constructor; assumption | intros H; inversion H; auto].
+Qed.
+
+Fixpoint need (c : cond) : nat :=
+  match c with
+  | CCmp _ _ _ => 10
+  | CNot x => 10 + need x
+  | CAnd cs | COr cs => 10 + fold_right (fun c acc => 10 + need c + acc) 0 cs
+  end.
+Definition need_list (cs : list cond) : nat := fold_right (fun c acc => 10 + need c + acc) 0 cs.
+Definition reqC (c : cond) : nat := match c with CAnd cs => need_list cs | _ => need c + 1 end.
+Definition reqD (c : cond) : nat :=
+  match c with COr cs => need_list cs | CAnd cs => need_list cs + 1 | _ => need c + 2 end.
+
+Lemma reqC_le c : reqC c <= need c + 1.
+Proof. destruct c; unfold reqC, need_list; cbn [need]; lia. Qed.
+Lemma reqD_le c : reqD c <= need c + 2.
+Proof. destruct c; unfold reqD, need_list; cbn [need]; lia. Qed.
+
+Definition disj_list (c : cond) : list cond := match c with COr cs => cs | _ => [c] end.
+Definition conj_list (c : cond) : list cond := match c with CAnd cs => cs | _ => [c] end.
+
+Definition not_and (ts : list tok) : Prop := match ts with KAnd :: _ => False | _ => True end.
+Definition not_or (ts : list tok) : Prop := match ts with KOr :: _ => False | _ => True end.
+
+Lemma mk_or_disj_list c : cwf c -> mk_or (disj_list c) = c.
+Proof.
+  destruct c as [o col v|cs|cs|x]; simpl; try reflexivity.
+  intros [Hl _]. destruct cs as [|a [|b cs']]; simpl in *; try lia. reflexivity.
+Qed.
+
+Lemma mk_and_conj_list c : cwf c -> mk_and (conj_list c) = c.
+Proof.
+  destruct c as [o col v|cs|cs|x]; simpl; try reflexivity.
+  intros [Hl _]. destruct cs as [|a [|b cs']]; simpl in *; try lia. reflexivity.
+Qed.
+
+Definition PA (c : cond) : Prop := forall rest fuel, need c <= fuel ->
+  pitem fuel (print 2 c ++ rest) = Some (c, rest).
+Definition PC (c : cond) : Prop := forall rest fuel, reqC c <= fuel -> not_and rest ->
+  pcl fuel (print 1 c ++ rest) = Some (conj_list c, rest).
+Definition PD (c : cond) : Prop := forall rest fuel, reqD c <= fuel -> not_and rest -> not_or rest ->
+  pdl fuel (print 0 c ++ rest) = Some (disj_list c, rest).
+
+Lemma pcl_single c rest fuel : pitem fuel (print 2 c ++ rest) = Some (c, rest) -> not_and rest ->
+  pcl (S fuel) (print 2 c ++ rest) = Some ([c], rest).
+Proof.
+  intros H Hr. simpl. rewrite H. destruct rest as [|t rest']; [reflexivity|].
+  destruct t; try reflexivity. destruct Hr.
+Qed.
+
+Lemma pdl_single cs c rest fuel : pcl fuel (print 1 c ++ rest) = Some (cs, rest) -> not_or rest ->
+  pdl (S fuel) (print 1 c ++ rest) = Some ([mk_and cs], rest).
+Proof.
+  intros H Hr. simpl. rewrite H. destruct rest as [|t rest']; [reflexivity|].
+  destruct t; try reflexivity. destruct Hr.
+Qed.
+
+Lemma pcl_list : forall cs rest fuel, cs <> [] -> Forall PA cs ->
+  need_list cs <= fuel -> not_and rest ->
+  pcl fuel (join_tok KAnd (map (print 2) cs) ++ rest) = Some (cs, rest).
+Proof.
+  induction cs as [|c cs IH]; intros rest fuel Hne Hall Hf Hr; [congruence|].
+  inversion Hall as [|? ? Hc Hcs]; subst. unfold need_list in Hf. simpl in Hf.
+  destruct cs as [|c2 cs'].
+  - simpl. destruct fuel as [|f]; [lia|].
+    apply pcl_single; [apply Hc; lia | exact Hr].
+  - assert (E : join_tok KAnd (map (print 2) (c :: c2 :: cs')) ++ rest =
+                print 2 c ++ KAnd :: (join_tok KAnd (map (print 2) (c2 :: cs')) ++ rest)).
+    { change (join_tok KAnd (map (print 2) (c :: c2 :: cs')))
+        with (print 2 c ++ KAnd :: join_tok KAnd (map (print 2) (c2 :: cs'))).
+      rewrite <- app_assoc. reflexivity. }
+    rewrite E. clear E.
+    destruct fuel as [|f]; [lia|]. cbn [pcl].
+    rewrite (Hc (KAnd :: (join_tok KAnd (map (print 2) (c2 :: cs')) ++ rest)) f) by lia.
+    rewrite (IH rest f); [reflexivity | discriminate | exact Hcs | | exact Hr].
+    unfold need_list. simpl. simpl in Hf. lia.
+Qed.
+
+Lemma pdl_list : forall cs rest fuel, cs <> [] -> Forall PC cs -> Forall cwf cs ->
+  need_list cs <= fuel -> not_and rest -> not_or rest ->
+  pdl fuel (join_tok KOr (map (print 1) cs) ++ rest) = Some (cs, rest).
+Proof.
+  induction cs as [|c cs IH]; intros rest fuel Hne Hall Hwf Hf Hr1 Hr2; [congruence|].
+  inversion Hall as [|? ? Hc Hcs]; subst. inversion Hwf as [|? ? Wc Wcs]; subst.
+  unfold need_list in Hf. simpl in Hf. pose proof (reqC_le c) as Rc.
+  destruct cs as [|c2 cs'].
+  - simpl. destruct fuel as [|f]; [lia|].
+    rewrite (pdl_single (conj_list c) c rest f); [rewrite mk_and_conj_list by exact Wc; reflexivity | | exact Hr2].
+    apply Hc; [lia | exact Hr1].
+  - assert (E : join_tok KOr (map (print 1) (c :: c2 :: cs')) ++ rest =
+                print 1 c ++ KOr :: (join_tok KOr (map (print 1) (c2 :: cs')) ++ rest)).
+    { change (join_tok KOr (map (print 1) (c :: c2 :: cs')))
+        with (print 1 c ++ KOr :: join_tok KOr (map (print 1) (c2 :: cs'))).
+      rewrite <- app_assoc. reflexivity. }
+    rewrite E. clear E.
+    destruct fuel as [|f]; [lia|]. cbn [pdl].
+    rewrite (Hc (KOr :: (join_tok KOr (map (print 1) (c2 :: cs')) ++ rest)) f) by (try lia; exact I).
+    rewrite (IH rest f); [rewrite mk_and_conj_list by exact Wc; reflexivity | discriminate | exact Hcs | exact Wcs | | exact Hr1 | exact Hr2].
+    unfold need_list. simpl. simpl in Hf. lia.
+Qed.
+
+Lemma pitem_paren c rest fuel : PD c -> cwf c -> reqD c + 1 <= fuel ->
+  pitem fuel (KLp :: print 0 c ++ KRp :: rest) = Some (c, rest).
+Proof.
+  intros HD Hw Hf. destruct fuel as [|f]; [lia|]. cbn [pitem].
+  rewrite (HD (KRp :: rest) f) by (try lia; exact I).
+  rewrite mk_or_disj_list by exact Hw. reflexivity.
+Qed.
+
+Theorem parse_print_all c : cwf c -> PA c /\ PC c /\ PD c.
+Proof.
+  induction c as [o col v | cs IH | cs IH | x IH] using cond_ind2; intros Hw.
+  - (* comparison *)
+    assert (A : PA (CCmp o col v)).
+    { intros rest fuel Hf. destruct fuel as [|f]; [simpl in Hf; lia|].
+      simpl in Hw. destruct v as [z|s]; simpl; unfold lit_ok in Hw; simpl in Hw;
+        apply negb_true_iff in Hw; rewrite Hw; reflexivity. }
+    assert (C : PC (CCmp o col v)).
+    { intros rest fuel Hf Hr. destruct fuel as [|f]; [simpl in Hf; lia|].
+      change (print 1 (CCmp o col v)) with (print 2 (CCmp o col v)).
+      apply pcl_single; [apply A; simpl in *; lia | exact Hr]. }
+    split; [exact A|]. split; [exact C|].
+    intros rest fuel Hf Hr1 Hr2. destruct fuel as [|f]; [simpl in Hf; lia|].
+    change (print 0 (CCmp o col v)) with (print 1 (CCmp o col v)).
+    rewrite (pdl_single [CCmp o col v] (CCmp o col v) rest f); [reflexivity | | exact Hr2].
+    apply C; [simpl in *; lia | exact Hr1].
+  - (* and *)
+    simpl in Hw. destruct Hw as [Hlen Hall]. apply cwf_list in Hall.
+    assert (HPA : Forall PA cs).
+    { rewrite Forall_forall in *. intros c Hc. apply (IH c Hc). apply Hall, Hc. }
+    assert (Hne : cs <> []) by (destruct cs; simpl in Hlen; [lia | discriminate]).
+    assert (Hwf' : cwf (CAnd cs)) by (simpl; split; [exact Hlen | apply cwf_list; exact Hall]).
+    assert (Cc : PC (CAnd cs)).
+    { intros rest fuel Hf Hr. simpl print. simpl in Hf. apply pcl_list; auto. }
+    assert (Dc : PD (CAnd cs)).
+    { intros rest fuel Hf Hr1 Hr2. destruct fuel as [|f]; [simpl in Hf; lia|].
+      change (print 0 (CAnd cs)) with (print 1 (CAnd cs)).
+      rewrite (pdl_single cs (CAnd cs) rest f); [|apply Cc; [simpl in *; lia | exact Hr1] | exact Hr2].
+      assert (mk_and cs = CAnd cs) as ->.
+      { destruct cs as [|a [|b cs']]; simpl in Hlen; try lia. reflexivity. }
+      reflexivity. }
+    split; [|split; [exact Cc | exact Dc]].
+    intros rest fuel Hf.
+    change (print 2 (CAnd cs) ++ rest) with (KLp :: (print 0 (CAnd cs) ++ [KRp]) ++ rest).
+    rewrite <- app_assoc. change ([KRp] ++ rest) with (KRp :: rest).
+    apply (pitem_paren (CAnd cs) rest fuel); [exact Dc | exact Hwf' | ].
+    unfold reqD, need_list. cbn [need] in Hf. lia.
+  - (* or *)
+    simpl in Hw. destruct Hw as [Hlen Hall]. apply cwf_list in Hall.
+    assert (HPC : Forall PC cs).
+    { rewrite Forall_forall in *. intros c Hc. apply (IH c Hc). apply Hall, Hc. }
+    assert (Hne : cs <> []) by (destruct cs; simpl in Hlen; [lia | discriminate]).
+    assert (Hwf' : cwf (COr cs)) by (simpl; split; [exact Hlen | apply cwf_list; exact Hall]).
+    assert (Dc : PD (COr cs)).
+    { intros rest fuel Hf Hr1 Hr2. simpl print. simpl in Hf. apply pdl_list; auto. }
+    assert (Ac : PA (COr cs)).
+    { intros rest fuel Hf.
+      change (print 2 (COr cs) ++ rest) with (KLp :: (print 0 (COr cs) ++ [KRp]) ++ rest).
+      rewrite <- app_assoc. change ([KRp] ++ rest) with (KRp :: rest).
+      apply (pitem_paren (COr cs) rest fuel); [exact Dc | exact Hwf' | ].
+      unfold reqD, need_list. cbn [need] in Hf. lia. }
+    split; [exact Ac|]. split; [|exact Dc].
+    intros rest fuel Hf Hr. destruct fuel as [|f]; [simpl in Hf; lia|].
+    change (print 1 (COr cs)) with (print 2 (COr cs)).
+    apply pcl_single; [apply Ac; simpl in *; lia | exact Hr].
+  - (* not *)
+    simpl in Hw. destruct (IH Hw) as (Ax & Cx & Dx). pose proof (reqD_le x) as Rx.
+    assert (A : PA (CNot x)).
+    { intros rest fuel Hf. simpl in Hf.
+      change (print 2 (CNot x)) with ([KLp; KNot] ++ print 0 x ++ [KRp]).
+      rewrite <- !app_assoc. simpl app.
+      destruct fuel as [|f1]; [lia|]. destruct f1 as [|f2]; [lia|]. destruct f2 as [|f3]; [lia|].
+      destruct f3 as [|f4]; [lia|].
+      assert (Hi : pitem (S f4) (KNot :: print 0 x ++ KRp :: rest) = Some (CNot x, KRp :: rest)).
+      { cbn [pitem]. rewrite (Dx (KRp :: rest) f4) by (try lia; exact I).
+        rewrite mk_or_disj_list by exact Hw. reflexivity. }
+      assert (Hc : pcl (S (S f4)) (KNot :: print 0 x ++ KRp :: rest) = Some ([CNot x], KRp :: rest)).
+      { cbn [pcl]. rewrite Hi. reflexivity. }
+      assert (Hd : pdl (S (S (S f4))) (KNot :: print 0 x ++ KRp :: rest) = Some ([CNot x], KRp :: rest)).
+      { cbn [pdl]. rewrite Hc. reflexivity. }
+      cbn [pitem]. rewrite Hd. reflexivity. }
+    assert (C : PC (CNot x)).
+    { intros rest fuel Hf Hr. destruct fuel as [|f]; [simpl in Hf; lia|].
+      change (print 1 (CNot x)) with (print 2 (CNot x)).
+      apply pcl_single; [apply A; simpl in *; lia | exact Hr]. }
+    split; [exact A|]. split; [exact C|].
+    intros rest fuel Hf Hr1 Hr2. destruct fuel as [|f]; [simpl in Hf; lia|].
+    change (print 0 (CNot x)) with (print 1 (CNot x)).
+    rewrite (pdl_single [CNot x] (CNot x) rest f); [reflexivity | | exact Hr2].
+    apply C; [simpl in *; lia | exact Hr1].
+Qed.
+
+(* parsing the text (token stream) of any condition tree returns that tree *)
+Theorem parse_print c rest fuel : cwf c -> need c + 2 <= fuel -> not_and rest -> not_or rest ->
+  parse_disj fuel (print 0 c ++ rest) = Some (c, rest).
+Proof.
+  intros Hw Hf Hr1 Hr2. unfold parse_disj. pose proof (reqD_le c) as R.
+  destruct (parse_print_all c Hw) as (_ & _ & D). rewrite (D rest fuel) by (try lia; assumption).
+  rewrite mk_or_disj_list by exact Hw. reflexivity.
+Qed.
+
+(* the fuel the model's parse_where passes (40 per token) is always enough *)
+Lemma join_tok_length sep l :
+  length (join_tok sep l) = fold_right (fun x acc => length x + acc) 0 l + (length l - 1).
+Proof.
+  induction l as [|x l IH]; [reflexivity|].
+  destruct l as [|y l']; [simpl; lia|].
+  change (join_tok sep (x :: y :: l')) with (x ++ sep :: join_tok sep (y :: l')).
+  rewrite app_length.
+  change (length (sep :: join_tok sep (y :: l'))) with (S (length (join_tok sep (y :: l')))).
+  rewrite IH. simpl. lia.
+Qed.
+
+Lemma need_le_tokens c : cwf c -> forall ctx, need c <= 40 * length (print ctx c) - 20.
+Proof.
+  induction c as [o col v | cs IH | cs IH | x IH] using cond_ind2; intros Hw ctx.
+  - destruct v; cbn [need print length]; lia.
+  - simpl in Hw. destruct Hw as [Hlen Hall]. apply cwf_list in Hall.
+    assert (G : need_list cs + 10 * length cs <=
+                40 * fold_right (fun x acc => length x + acc) 0 (map (print 2) cs)).
+    { clear Hlen. induction cs as [|c cs IHc]; [unfold need_list; cbn [map fold_right length]; lia|].
+      inversion IH as [|? ? Hc Hcs]; subst. inversion Hall as [|? ? Wc Wcs]; subst.
+      specialize (IHc Hcs Wcs). specialize (Hc Wc 2). unfold need_list in *.
+      cbn [map fold_right length].
+      assert (1 <= length (print 2 c)).
+      { destruct c as [? ? []|?|?|?]; cbn [print]; rewrite ?app_length; cbn [length]; lia. }
+      lia. }
+    cbn [need print]. fold (need_list cs).
+    assert (L : length (join_tok KAnd (map (print 2) cs)) =
+                fold_right (fun x acc => length x + acc) 0 (map (print 2) cs) + (length cs - 1)).
+    { rewrite join_tok_length, map_length. reflexivity. }
+    destruct ctx as [|[|ctx]]; rewrite ?app_length; cbn [length]; rewrite ?app_length, ?L; cbn [length]; lia.
+  - simpl in Hw. destruct Hw as [Hlen Hall]. apply cwf_list in Hall.
+    assert (G : need_list cs + 10 * length cs <=
+                40 * fold_right (fun x acc => length x + acc) 0 (map (print 1) cs)).
+    { clear Hlen. induction cs as [|c cs IHc]; [unfold need_list; cbn [map fold_right length]; lia|].
+      inversion IH as [|? ? Hc Hcs]; subst. inversion Hall as [|? ? Wc Wcs]; subst.
+      specialize (IHc Hcs Wcs). specialize (Hc Wc 1). unfold need_list in *.
+      cbn [map fold_right length].
+      assert (1 <= length (print 1 c)).
+      { destruct c as [? ? []|cs'|?|?]; cbn [print]; rewrite ?app_length; cbn [length]; try lia.
+        simpl in Wc. destruct Wc as [Wl _]. destruct cs' as [|a [|b r]]; simpl in Wl; try lia.
+        change (join_tok KAnd (map (print 2) (a :: b :: r)))
+          with (print 2 a ++ KAnd :: join_tok KAnd (map (print 2) (b :: r))).
+        rewrite app_length. cbn [length]. lia. }
+      lia. }
+    cbn [need print]. fold (need_list cs).
+    assert (L : length (join_tok KOr (map (print 1) cs)) =
+                fold_right (fun x acc => length x + acc) 0 (map (print 1) cs) + (length cs - 1)).
+    { rewrite join_tok_length, map_length. reflexivity. }
+    destruct ctx as [|ctx]; rewrite ?app_length; cbn [length]; rewrite ?app_length, ?L; cbn [length]; lia.
+  - simpl in Hw. specialize (IH Hw 0). cbn [need print]. rewrite !app_length. cbn [length]. lia.
+Qed.
+
+(* with the fuel parse_where itself uses *)
+Theorem parse_where_print c : cwf c ->
+  parse_where 2 (KWhere :: print 0 c ++ [KDot]) [] = Some (Some c, [KDot]).
+Proof.
+  intros Hw. cbn [parse_where].
+  rewrite (parse_print c [KDot]); [reflexivity | exact Hw | | exact I | exact I].
+  pose proof (need_le_tokens c Hw 0). rewrite app_length. simpl. lia.
+Qed.
+
+(* several where clauses mean conjunction *)
+Theorem where_conjunction c1 c2 : cwf c1 -> cwf c2 ->
+  parse_where 3 (KWhere :: print 0 c1 ++ KWhere :: print 0 c2 ++ [KDot]) [] =
+  Some (Some (CAnd [c1; c2]), [KDot]).
+Proof.
+  intros W1 W2. cbn [parse_where].
+  rewrite (parse_print c1 (KWhere :: print 0 c2 ++ [KDot])); [| exact W1 | | exact I | exact I].
+  2:{ pose proof (need_le_tokens c1 W1 0). rewrite app_length. simpl. lia. }
+  cbn [parse_where app].
+  rewrite (parse_print c2 [KDot]); [reflexivity | exact W2 | | exact I | exact I].
+  pose proof (need_le_tokens c2 W2 0). rewrite app_length. simpl. lia.
+Qed.
